@@ -87,11 +87,11 @@ def build_harness():
         head, dig, _ = repo_digest()
         hsh.update(dig.encode())
         stamp = hsh.hexdigest()
-        binpath = os.path.join(WORK, "bin", "verifharness")
+        binpath = os.path.join(WORK, "bin", "verifharness" + ("" if REPO == "/repo" else "-" + hashlib.sha256(REPO.encode()).hexdigest()[:8]))
         stampf = binpath + ".stamp"
         if os.path.exists(binpath) and os.path.exists(stampf) and open(stampf).read() == stamp:
             return binpath
-        ov = os.path.join(WORK, "overlay.json")
+        ov = os.path.join(WORK, "overlay%s.json" % ("" if REPO == "/repo" else "-" + hashlib.sha256(REPO.encode()).hexdigest()[:8]))
         json.dump({"Replace": overlay}, open(ov, "w"), indent=1)
         t0 = time.time()
         p = subprocess.run(["go", "build", "-tags", "verif", "-overlay", ov, "-o", binpath,
